@@ -10,7 +10,7 @@ import sys
 import time
 
 VERIF = os.path.dirname(os.path.dirname(os.path.abspath(__file__)))
-REPO = os.environ.get('CONCEPTS_REPO', '/repo')
+REPO = os.environ.get('CONCEPTS_REPO') or '/repo'
 COQ = os.path.join(VERIF, 'coq')
 BUILD = os.path.join(VERIF, '_build')
 PY = '/venv/bin/python'
